@@ -643,7 +643,12 @@ pub fn data_text(path: &str, value: &DataValue, malformed: bool) -> String {
         },
     };
     if malformed && extension(path) != Some("txt") {
-        format!("{} {{ [ \"", text)
+        // certainly not JSON / JSON5 / YAML / TOML, whatever the value was
+        let _ = text;
+        match extension(path) {
+            Some("toml") => "a = = 1\n[[\n".to_owned(),
+            _ => "{ \"a\": [1, 2, }".to_owned(),
+        }
     } else {
         text
     }
